@@ -23,7 +23,7 @@ PROPS = {
              "blocks: per channel the raw stream cut at the block boundaries the device chose vs. its unwrapped blocks (`roach`), and the datagrams of "
              "each bundle vs. the blocks made from them - first frame index and every channel's samples (`rdev`, Model/C12Roach.lean).",
         nontrivial=["wrapped", "group"],
-        lean_files=["C12", "C12Roach", "RoachDevice", "ComposeRoachFiles"],
+        lean_files=["C12", "C12Roach", "RoachDevice", "ComposeRoachFiles", "C12Oracle"],
         jobs=seeds(1, 8),
         trusted_base=["Go uint16/int16 conversion semantics as transcribed in Model/C12.lean (toInt16, mod 65536)"],
         assumptions=["the PhaseUnwrapper is only driven through NewPhaseUnwrapper/UnwrapInPlace (Abaco: NewAbacoGroup/demuxData, exercised; "
